@@ -162,6 +162,7 @@ type submission struct {
 type world struct {
 	root, ca, preIssuer *pki.Cert
 	subX509, subPre, subPreIssuer *submission // NotAfter 2025-06: shard 1
+	subPreSameLeaf                *submission // subPre's precertificate submitted under another issuer certificate
 	subX509Old, subPreOld          *submission // NotAfter 2024-06: shard 0
 
 	entries   []refEntry // honest get-entries range [3,4]: one x509 entry, one precert entry
@@ -257,6 +258,13 @@ func newWorld() *world {
 	}
 	w.subX509, w.subX509Old = mkX("x509", false), mkX("x509-old", true)
 	w.subPre, w.subPreOld = mkP("precert", false), mkP("precert-old", true)
+	// the very same precertificate bytes, submitted with a different certificate in the issuer position:
+	// another entry (other issuer_key_hash), so another SCT
+	w.subPreSameLeaf = &submission{name: "precert-same-leaf-other-issuer", pre: true, chain: [][]byte{w.subPre.chain[0], w.root.DER},
+		entry:      *w.subPre.otherIssue,
+		otherType:  w.subPre.otherType,
+		otherChain: w.subPre.otherChain,
+		otherIssue: &w.subPre.entry}
 	// precertificate issued by a precertificate signing certificate
 	p2 := pre("precert-pi", false, w.preIssuer)
 	caAKI := pki.ExtAKI(caHash[:20])
